@@ -21,6 +21,7 @@ pub fn prop() -> HistProp {
         nontrivial,
         quick_cases: 20000,
         thorough_cases: 400000,
+        pressure_cases: (6000, 120000),
         assumptions: vec!["file handles are flushed at the end of each mutating file call, so deferred size/first-cluster state (C04/C14) is not mistaken for corruption", "documented preconditions of DESIGN 4.3"],
     }
 }
